@@ -281,3 +281,147 @@ func vPacketParse(session bool) {
 
 func vH_C04_packet_parse_session() { vPacketParse(true) }
 func vH_C04_packet_parse_dataack() { vPacketParse(false) }
+
+// ---- H1.1 (length level, quick): TCP framing arithmetic ----
+//
+// vLenStreamCipher: implicit-nonce cipher at length level - the first Encrypt
+// of a direction emits the 24-byte nonce, every Encrypt adds a 16-byte tag.
+type vLenStreamCipher struct {
+	hasNonce bool
+	encrypts int
+	user     string
+}
+
+func (b *vLenStreamCipher) Encrypt(dst, plaintext []byte) error {
+	need := len(plaintext) + 16
+	if !b.hasNonce {
+		need += 24
+		b.hasNonce = true
+	}
+	b.encrypts++
+	vAssert(cap(dst)-len(dst) >= need, "Encrypt is given enough room for (nonce,) ciphertext and tag")
+	return nil
+}
+func (b *vLenStreamCipher) EncryptWithNonce(dst, nonce, plaintext []byte) error { return vTimeoutErr{} }
+func (b *vLenStreamCipher) Decrypt(ciphertext []byte) ([]byte, error)           { return nil, vTimeoutErr{} }
+func (b *vLenStreamCipher) DecryptWithNonce(ciphertext, nonce []byte) ([]byte, error) {
+	return nil, vTimeoutErr{}
+}
+func (b *vLenStreamCipher) DecryptStatelessTo(ciphertext, dst []byte) ([]byte, error) {
+	return nil, vTimeoutErr{}
+}
+func (b *vLenStreamCipher) NonceSize() int                         { return 24 }
+func (b *vLenStreamCipher) Overhead() int                          { return 16 }
+func (b *vLenStreamCipher) Clone() cipher.BlockCipher              { c := *b; return &c }
+func (b *vLenStreamCipher) CloneStatelessFast() cipher.BlockCipher { c := *b; return &c }
+func (b *vLenStreamCipher) SetImplicitNonceMode(enable bool) {
+	if !enable {
+		b.hasNonce = false
+	}
+}
+func (b *vLenStreamCipher) IsStateless() bool                              { return false }
+func (b *vLenStreamCipher) BlockContext() cipher.BlockContext              { return cipher.BlockContext{UserName: b.user} }
+func (b *vLenStreamCipher) SetBlockContext(bc cipher.BlockContext)         { b.user = bc.UserName }
+func (b *vLenStreamCipher) NoncePattern() *appctlpb.NoncePattern           { return nil }
+func (b *vLenStreamCipher) SetNoncePattern(pattern *appctlpb.NoncePattern) {}
+
+// vLenConn records only how many bytes were written, and in how many pieces.
+type vLenConn struct {
+	total, writes int
+	closed        bool
+}
+
+func (c *vLenConn) Read(p []byte) (int, error)         { return 0, vTimeoutErr{} }
+func (c *vLenConn) Write(p []byte) (int, error)        { c.total += len(p); c.writes++; return len(p), nil }
+func (c *vLenConn) Close() error                       { c.closed = true; return nil }
+func (c *vLenConn) LocalAddr() net.Addr                { return vUDPAddr{"local"} }
+func (c *vLenConn) RemoteAddr() net.Addr               { return vUDPAddr{"peer"} }
+func (c *vLenConn) SetDeadline(t time.Time) error      { return nil }
+func (c *vLenConn) SetReadDeadline(t time.Time) error  { return nil }
+func (c *vLenConn) SetWriteDeadline(t time.Time) error { return nil }
+
+// Two consecutive segments of a client stream underlay: the bytes handed to the
+// connection are  [24 nonce, first segment only] + 48 + prefix + payload(+16) +
+// suffix  with prefix/suffix/payload lengths exactly as recorded in the
+// metadata the peer will decrypt; one encryption per metadata and per
+// non-empty payload; the length fields lose nothing (uint8 / uint16).
+func vH_C01_stream_write_len() {
+	tp := vArbPattern()
+	conn := &vLenConn{}
+	blk := &vLenStreamCipher{user: "u"}
+	u := &StreamUnderlay{baseUnderlay: *newBaseUnderlay(true, 1400, tp), conn: conn, block: blk}
+	before := 0
+	for k := 0; k < 2; k++ {
+		pl := vNondetInt("payload.len")
+		var seg *segment
+		session := vNondetBool("session")
+		vPadN = 0
+		if session {
+			proto := vNondetU8("protocol")
+			vAssume(proto >= uint8(openSessionRequest) && proto <= uint8(closeSessionResponse))
+			vAssume(pl >= 0 && pl <= MaxSessionOpenPayload)
+			seg = &segment{metadata: &sessionStruct{baseStruct: baseStruct{protocol: proto}, sessionID: 7, seq: vNondetU32("seq"), payloadLen: uint16(pl)},
+				payload: make([]byte, pl), transport: common.StreamTransport}
+		} else {
+			vAssume(pl >= 0 && pl <= maxPDU)
+			seg = &segment{metadata: &dataAckStruct{baseStruct: baseStruct{protocol: uint8(dataClientToServer)}, sessionID: 7, seq: vNondetU32("seq"), payloadLen: uint16(pl),
+				prefixLen: vNondetU8("old.prefix"), suffixLen: vNondetU8("old.suffix")}, payload: make([]byte, pl), transport: common.StreamTransport}
+		}
+		enc0 := u.send
+		err := u.writeOneSegment(seg)
+		vAssert(err == nil, "writeOneSegment succeeds")
+		n := conn.total - before
+		before = conn.total
+		enc := 0
+		if pl > 0 {
+			enc = pl + 16
+		}
+		first := 0
+		if k == 0 {
+			first = 24
+			vAssert(enc0 == nil && u.send != nil, "the send cipher is derived on the first write")
+		}
+		if session {
+			ss := seg.metadata.(*sessionStruct)
+			vAssert(n == first+48+enc+int(ss.suffixLen), "session segment = [nonce] + metadata + tag + payload(+tag) + suffix padding as recorded")
+			vAssert(int(ss.suffixLen) == vPadLens[0] && vPadN == 1 && int(ss.payloadLen) == pl, "length fields = bytes actually written")
+		} else {
+			das := seg.metadata.(*dataAckStruct)
+			vAssert(n == first+48+int(das.prefixLen)+enc+int(das.suffixLen), "data segment = [nonce] + metadata + tag + prefix + payload(+tag) + suffix as recorded")
+			vAssert(int(das.prefixLen) == vPadLens[0] && int(das.suffixLen) == vPadLens[1] && vPadN == 2 && int(das.payloadLen) == pl, "length fields = bytes actually written")
+		}
+	}
+	vAssert(u.send.(*vLenStreamCipher).hasNonce, "the nonce went out with the first segment only")
+}
+
+// The read side: whatever the authenticated metadata says, a successful
+// readOneSegment consumed EXACTLY  [24] + 48 + prefix + payload(+16) + suffix
+// bytes of the stream - so the next segment starts where the writer put it.
+func vH_C01_stream_read_len() {
+	l := vNondetInt("len")
+	vAssume(l >= 0 && l <= 70000)
+	conn := &vFakeConn{in: make([]byte, l)}
+	isClient := vNondetBool("isClient")
+	u := &StreamUnderlay{baseUnderlay: *newBaseUnderlay(isClient, 1400, nil), conn: conn}
+	u.recv = &vOracleCipher{user: "peer"}
+	seg, err := u.readOneSegment()
+	if err == nil && seg != nil {
+		enc := 0
+		want := 48
+		if ss, ok := seg.metadata.(*sessionStruct); ok {
+			if ss.payloadLen > 0 {
+				enc = int(ss.payloadLen) + 16
+			}
+			want += enc + int(ss.suffixLen)
+			vAssert(len(seg.payload) == int(ss.payloadLen), "payload has the length the metadata names")
+		} else {
+			das := seg.metadata.(*dataAckStruct)
+			if das.payloadLen > 0 {
+				enc = int(das.payloadLen) + 16
+			}
+			want += int(das.prefixLen) + enc + int(das.suffixLen)
+			vAssert(len(seg.payload) == int(das.payloadLen), "payload has the length the metadata names")
+		}
+		vAssert(conn.pos == want, "a parsed segment consumed exactly metadata + prefix + payload(+tag) + suffix (the stream stays aligned)")
+	}
+}
